@@ -179,6 +179,59 @@ theorem merge_tile_order_free {K : Type} [DecidableEq K] {thr : Int} {d : Nat} (
     M.valOr thr p = M'.valOr thr p :=
   merge_any_order ts ts' hp hd hM hM' p
 
+/-! ## the inner job count does not matter -/
+
+open Pm.C04 in
+/-- what every analyzer of a job reads at an absolute voxel only depends on the rotations the job was given -/
+theorem allVals_chunks {K : Type} (off shape : List Nat) (chunks : List (List (Arr Int × K))) (p : List Nat) :
+    allVals (chunks.map (fun c => (⟨off, shape, c⟩ : Tile K))) p = tileVals (⟨off, shape, chunks.flatten⟩ : Tile K) p := by
+  induction chunks with
+  | nil => simp [allVals, tileVals, valsAt]; cases localIdx off shape p <;> rfl
+  | cons c cs ih =>
+    have : allVals ((c :: cs).map (fun c => (⟨off, shape, c⟩ : Tile K))) p
+        = tileVals (⟨off, shape, c⟩ : Tile K) p ++ allVals (cs.map (fun c => (⟨off, shape, c⟩ : Tile K))) p := by
+      simp [allVals]
+    rw [this, ih]
+    simp only [tileVals, List.flatten_cons]
+    cases localIdx off shape p with
+    | none => rfl
+    | some q => simp [valsAt]
+
+open Pm.C04 in
+/-- **`scan(n_jobs = k)` = `scan(n_jobs = 1)`** (any threshold, any number of jobs, also more jobs than rotations):
+the rotation list is cut into `k` chunks (`_split_rotations_on_jobs`), every job aggregates its chunk in an analyzer of
+its own, `merge` combines the analyzers; at every absolute voxel the merged map holds the value the single job holds. -/
+theorem chunked_jobs_eq_single_job {K : Type} [DecidableEq K] {thr : Int} (off shape : List Nat)
+    (h : List (Arr Int × K)) (nJobs : Nat) (hj : 1 ≤ nJobs) (hd : off.length = shape.length)
+    {M M1 : Store K}
+    (hM : merge thr (((splitRotations h nJobs).map (fun c => (⟨off, shape, c⟩ : Tile K))).map (tileStore thr)) = some M)
+    (hM1 : merge thr ([(⟨off, shape, h⟩ : Tile K)].map (tileStore thr)) = some M1) (p : List Nat) :
+    M.valOr thr p = M1.valOr thr p := by
+  have key : ∀ {T : Store K} {us : List (Tile K)}, Represents thr T us → T.valOr thr p = specMax thr (allVals us p) := by
+    intro T us RT
+    simp only [Store.valOr, Store.valAt?]
+    cases hl : localIdx T.offset T.scores.shape p with
+    | none => simp [RT.outside p hl, specMax_nil]
+    | some q => simpa using (RT.cell p q hl).1
+  have R := merge_tiles_represents (d := shape.length) _ (by
+    intro t ht
+    obtain ⟨c, _, rfl⟩ := List.mem_map.mp ht
+    exact ⟨hd, rfl⟩) hM
+  have R1 := merge_tiles_represents (d := shape.length) [(⟨off, shape, h⟩ : Tile K)] (by
+    intro t ht
+    simp at ht
+    subst ht
+    exact ⟨hd, rfl⟩) hM1
+  rw [key R, key R1, allVals_chunks, splitRotations_concat h nJobs hj, allVals_single]
+
+example : (splitRotations [1, 2, 3] 5).flatten = [1, 2, 3] := by decide
+open Pm.C04 in
+/-- the hypotheses are satisfiable: three rotations on two jobs and on one job, both merges succeed -/
+example : (merge 0 (((splitRotations [(exA, "r0"), (exB, "r1"), (exC, "r2")] 2).map
+      (fun c => (⟨[0], [2], c⟩ : Tile String))).map (tileStore 0))).isSome = true
+    ∧ (merge 0 ([(⟨[0], [2], [(exA, "r0"), (exB, "r1"), (exC, "r2")]⟩ : Tile String)].map (tileStore 0))).isSome = true := by
+  decide
+
 /-! ## tiles with edge padding give the unsplit (padded) result -/
 
 open Pm.C01
